@@ -4,6 +4,10 @@ import json
 ALL = ["C%02d" % i for i in range(1, 21)]
 # id -> (category, level text, level note, technique, design ref)
 CHECKS = {
+ "C12": ("exploration",
+   "round-trip oracle over generated inputs: patch files of generated workspaces in every dialect, token soups of meaningful lines and mutated testdata; whatever the parser accepts is written, re-parsed, compared structurally (kind, names, rename, modes, hashes, both line sequences and start lines per hunk) and written again (fixed point)",
+   "per-line context/changed classification and the function text are not compared; one open known finding (hunkless git entries the writer cannot represent) is tolerated by an exact signature",
+   "property-based testing: round trip parse-write-parse-write over structured, token-level and mutational generators"),
  "C06": ("exploration",
    "differential test against the single-threaded run under schedules the harness owns: the cfg-guarded turnstile orders the start and end of every file patch application and the save-phase file operations according to a script; per workspace a free run, the two targeted extremes (worker owning the failing file patch last / first) and several random linear extensions are forced; schedules are sampled and targeted, not enumerated",
    "assumes workers interact only at the hooked points (they share one atomic); forced runs whose trace shows a stall release are counted but not trusted as forced",
